@@ -16,6 +16,8 @@
 #include "Matrix/MatrixRectangular.hpp"
 #include "Matrix/MatrixSquareSymmetric.hpp"
 #include "Matrix/Table.hpp"
+#include "Matrix/MatrixSparse.hpp"
+#include "Space/SpacePoint.hpp"
 #include "Neigh/NeighMoving.hpp"
 #include "Neigh/NeighUnique.hpp"
 #include "Simulation/CalcSimuTurningBands.hpp"
@@ -720,6 +722,355 @@ VF_PART(migrate_reduce_masked_vs_removed)
     static const char* TK[3] = {"point-to-point", "point-to-point-masked-targets", "point-to-grid-fill"};
     C.outcome(std::string("migrate:") + TK[ex] + (reduced ? ":some-removed:" : ":nothing-removed:") + (d.empty() ? "identical" : "DIFFERENT"));
     if (!d.empty()) C.violation(std::string("migrate:") + TK[ex] + cls, "migrate differs: " + d + " ; " + S.desc, kase);
+  });
+}
+
+
+// =====================================================================================================
+// requests restricted to ONE variable (or a pair) of a multivariate, heterotopic data set:
+// "a value undefined in one variable only = that variable removed at that sample". Every pattern of undefined cells
+// (2^(n*nvar)) so that each variable has its own undefined set; every (ivar0, jvar0), three neighbour lists.
+// Reference built by the harness from the raw arrays: the list of (variable, sample) equations of the request, and
+// pointwise Model::eval / evalDriftValue between the samples the harness selects itself.
+// =====================================================================================================
+namespace bv
+{
+struct Eq { int var, ech; };
+// equations of a request on the data: variables `vars`, samples taken in the order of nbgh (all when empty)
+static std::vector<Eq> eqs(const Raw& r, const std::vector<int>& vars, const std::vector<int>& nbgh)
+{
+  std::vector<Eq> e;
+  for (int v : vars)
+  {
+    std::vector<int> order = nbgh;
+    if (order.empty()) for (int i = 0; i < r.n; i++) order.push_back(i);
+    for (int i : order)
+    {
+      if (!r.sel.empty() && r.sel[i] <= 0) continue;
+      if (FFFF(r.z[v][i])) continue;
+      e.push_back({v, i});
+    }
+  }
+  return e;
+}
+static std::vector<int> varsOf(int ivar0, int nvar) { std::vector<int> v; if (ivar0 >= 0) v.push_back(ivar0); else for (int k = 0; k < nvar; k++) v.push_back(k); return v; }
+static Model* mkModel(int ndim, int nvar, int km)
+{
+  if (nvar == 2) return make_model(ndim, 2, km == 0 ? 0 : 1);
+  set_ndim(ndim);
+  // trivariate LMC (PSD sills: diagonally dominant)
+  Model* m = Model::createFromParam(ECov::SPHERICAL, 3., 1., 1., VectorDouble(), {2, 1, 0.5, 1, 1.5, -0.25, 0.5, -0.25, 1});
+  if (km == 1) m->addCovFromParam(ECov::NUGGET, 0., 1., 1., VectorDouble(), {0.5, 0, 0, 0, 0.25, 0, 0, 0, 0.125});
+  return m;
+}
+static SpacePoint sp(const Raw& r, int i) { VectorDouble c(r.ndim); for (int d = 0; d < r.ndim; d++) c[d] = r.x[d][i]; return SpacePoint(c, -1); }
+static std::string eqStr(const std::vector<Eq>& e) { std::string s = "["; for (size_t k = 0; k < e.size(); k++) s += (k ? " " : "") + std::string("z") + std::to_string(e[k].var + 1) + "@" + std::to_string(e[k].ech); return s + "]"; }
+}  // namespace bv
+
+VF_PART(one_variable_requests_on_heterotopic_data)
+{
+  using namespace c5;
+  using namespace bv;
+  bool T = C.thorough();
+  // (nvar, n) blocks: quick nvar=2 n=3,4 ; thorough adds nvar=2 n=5 (1024 patterns) and nvar=3 n=3 (512 patterns)
+  struct Block { int nvar, n; };
+  std::vector<Block> blocks = {{2, 3}, {2, 4}};
+  if (T) { blocks.push_back({2, 5}); blocks.push_back({3, 3}); }
+  int maxpat = 0; for (auto& b : blocks) maxpat = std::max(maxpat, 1 << (b.nvar * b.n));
+  Space sp_;
+  sp_.axis("block", (int)blocks.size()).axis("ndim", 2).axis("sel", 2).axis("model", 2).axis("pattern", maxpat);
+  for_each_case(C, sp_, [&](uint64_t id, const std::vector<int>& idx) {
+    const Block& B = blocks[idx[0]];
+    int nvar = B.nvar, n = B.n, ndim = idx[1] + 1, ksel = idx[2], km = idx[3];
+    unsigned pat = (unsigned)idx[4];
+    if (pat >= (1u << (nvar * n))) return;
+    std::string kase = std::to_string(id);
+    set_ndim(ndim);
+    Raw r = make_raw(ndim, 2, 0, n);
+    if (nvar == 3) { r.nvar = 3; r.z.push_back(values(2, n)); }
+    for (int v = 0; v < nvar; v++) for (int i = 0; i < n; i++) if ((pat >> (v * n + i)) & 1) r.z[v][i] = TEST;
+    if (ksel) { r.sel = VD(n, 1.); r.sel[n - 1] = 0; }
+    // do the variables have DIFFERENT undefined sets ?
+    bool differ = false;
+    for (int v = 1; v < nvar; v++) for (int i = 0; i < n; i++) if (FFFF(r.z[v][i]) != FFFF(r.z[0][i])) differ = true;
+    DbP db(raw_to_db(r));
+    Raw rt; rt.ndim = ndim; rt.nvar = 0; rt.n = 3; rt.x = targets(ndim, 0, 3);
+    DbP dt(raw_to_db(rt));
+    ModelP model(bv::mkModel(ndim, nvar, km));
+    model->setDriftIRF(1);
+    int nbfl = model->getDriftNumber();
+    std::string what = " ; data=" + raw_str(r) + " model#" + std::to_string(km);
+    if (id % 4099 == 3) C.sample("{\"id\":" + kase + ",\"data\":" + raw_str(r) + "}");
+    auto key = [&](const std::string& op, int iv, int jv) {
+      return op + ":variable-restricted-request:" + (iv >= 1 || jv >= 1 ? "rank>=1" : iv == 0 || jv == 0 ? "rank0" : "all-variables");
+    };
+    auto judge = [&](const std::string& op, int iv, int jv, const std::string& d, const std::string& req) {
+      C.eval();
+      bool restricted = iv >= 0 || jv >= 0;
+      C.outcome(op + (restricted ? ":restricted:" : ":all:") + (d.empty() ? "identical" : "DIFFERENT"));
+      if (differ && (iv >= 1 || jv >= 1)) C.nontrivial(Hash().u(id).s(op).s(req).h);
+      if (!d.empty()) C.violation(key(op, iv, jv), op + "(" + req + "): " + d + what, kase);
+    };
+    struct RiskyReq { int iv, jv, k1, k2, tgt; };
+    std::vector<RiskyReq> risky_reqs;
+    static const int NBGH = 3;
+    auto nbghOf = [&](int k) { std::vector<int> v; if (k == 1) v = {0, 2}; if (k == 2) v = {n - 1, 0, 1}; return v; };
+    for (int iv = -1; iv < nvar; iv++)
+      for (int k1 = 0; k1 < NBGH; k1++)
+      {
+        std::vector<int> nb1 = nbghOf(k1);
+        VectorInt NB1(nb1.begin(), nb1.end());
+        std::vector<Eq> E1 = eqs(r, varsOf(iv, nvar), nb1);
+        std::string req1 = "ivar0=" + std::to_string(iv) + " nbgh1=" + vstr(nb1);
+        // ---- Db::getMultipleRanksActive / getMultipleValuesActive (requested variable list = {iv} or all)
+        {
+          VectorInt ivars; if (iv >= 0) ivars.push_back(iv);
+          VectorVectorInt idxs = db->getMultipleRanksActive(ivars, NB1);
+          std::vector<Eq> got;
+          std::vector<int> vv = varsOf(iv, nvar);
+          for (size_t a = 0; a < idxs.size() && a < vv.size(); a++) for (int i : idxs[a]) got.push_back({vv[a], i});
+          std::string d;
+          if (idxs.size() != vv.size() || eqStr(got) != eqStr(E1)) d = "returns " + eqStr(got) + " expected " + eqStr(E1);
+          judge("getMultipleRanksActive", iv, -2, d, req1);
+          VectorDouble means(nvar); for (int v = 0; v < nvar; v++) means[v] = 0.5 * (v + 1);
+          VectorDouble zv = db->getMultipleValuesActive(ivars, NB1, means);
+          d.clear();
+          if (zv.size() != E1.size()) d = std::to_string(zv.size()) + " values, expected " + std::to_string(E1.size()) + " " + eqStr(E1);
+          else for (size_t a = 0; a < E1.size() && d.empty(); a++) if (zv[a] != r.z[E1[a].var][E1[a].ech] - means[E1[a].var]) d = "value " + std::to_string(a) + " = " + fmt(zv[a]) + " expected z" + std::to_string(E1[a].var + 1) + "@" + std::to_string(E1[a].ech) + " - mean = " + fmt(r.z[E1[a].var][E1[a].ech] - means[E1[a].var]);
+          judge("getMultipleValuesActive", iv, -2, d, req1);
+          // static helper picking the equations of one sample: position semantics decided by the documentation ("sample indices")
+          if (k1 == 0 && iv >= 0)
+          {
+            VectorVectorInt full = db->getMultipleRanksActive();
+            for (int i0 = 0; i0 < n; i0++)
+            {
+              VectorInt sel = Db::getMultipleSelectedIndices(full, VectorInt({iv}), VectorInt({i0}));
+              // expected: rank of equation (iv, i0) in the all-variable ordering, when it exists
+              std::vector<Eq> all = eqs(r, varsOf(-1, nvar), {});
+              std::vector<int> exp; for (size_t a = 0; a < all.size(); a++) if (all[a].var == iv && all[a].ech == i0) exp.push_back((int)a);
+              std::vector<int> gv(sel.begin(), sel.end());
+              C.eval();
+              C.outcome(gv == exp ? "getMultipleSelectedIndices:as-sample-rank" : "getMultipleSelectedIndices:DIFFERENT");
+              if (gv != exp) C.violation("getMultipleSelectedIndices:position-in-list-used-as-sample-rank", "getMultipleSelectedIndices(index, {" + std::to_string(iv) + "}, {" + std::to_string(i0) + "}) returns " + vstr(gv) +
+                                         ", the equation of variable " + std::to_string(iv) + " at SAMPLE " + std::to_string(i0) + " has rank " + vstr(exp) + " in " + eqStr(all) + what, kase);
+            }
+          }
+        }
+        // ---- drift matrix
+        {
+          MatrixRectangular X = model->evalDriftMatrix(db.get(), iv, NB1);
+          std::string d;
+          if (E1.empty()) { if (X.getNRows() != 0) d = "non empty matrix for an empty request"; }
+          else if (X.getNRows() != (int)E1.size() || X.getNCols() != nvar * nbfl) d = "dims " + std::to_string(X.getNRows()) + "x" + std::to_string(X.getNCols()) + " expected " + std::to_string(E1.size()) + "x" + std::to_string(nvar * nbfl) + " rows " + eqStr(E1);
+          else
+            for (size_t a = 0; a < E1.size() && d.empty(); a++)
+              for (int jb = 0; jb < nvar * nbfl && d.empty(); jb++)
+              {
+                double ref = model->evalDriftValue(db.get(), E1[a].ech, E1[a].var, jb, ECalcMember::LHS);
+                if (X.getValue((int)a, jb) != ref) d = "(" + std::to_string(a) + "," + std::to_string(jb) + ") = " + fmt(X.getValue((int)a, jb)) + " expected drift of z" + std::to_string(E1[a].var + 1) + "@" + std::to_string(E1[a].ech) + " = " + fmt(ref);
+              }
+          judge("evalDriftMatrix", iv, -2, d, req1);
+        }
+        // ---- symmetric covariance matrices
+        for (int optim = 0; optim < 2; optim++)
+        {
+          MatrixSquareSymmetric M = optim ? model->evalCovMatrixSymmetricOptim(db.get(), iv, NB1) : model->evalCovMatrixSymmetric(db.get(), iv, NB1);
+          if (optim) cleanOptim(model.get());
+          std::string d;
+          if (E1.empty()) { if (M.getNRows() != 0) d = "non empty matrix for an empty request"; }
+          else if (M.getNRows() != (int)E1.size()) d = "size " + std::to_string(M.getNRows()) + " expected " + std::to_string(E1.size()) + " rows " + eqStr(E1);
+          else
+            for (size_t a = 0; a < E1.size() && d.empty(); a++)
+              for (size_t b = 0; b < E1.size() && d.empty(); b++)
+              {
+                double ref = model->eval(bv::sp(r, E1[a].ech), bv::sp(r, E1[b].ech), E1[a].var, E1[b].var);
+                if (!close(M.getValue((int)a, (int)b), ref, 1e-10, 1.)) d = "(" + std::to_string(a) + "," + std::to_string(b) + ") = " + fmt(M.getValue((int)a, (int)b)) + " expected C(z" + std::to_string(E1[a].var + 1) + "@" + std::to_string(E1[a].ech) + ",z" + std::to_string(E1[b].var + 1) + "@" + std::to_string(E1[b].ech) + ") = " + fmt(ref);
+              }
+          judge(optim ? "evalCovMatrixSymmetricOptim" : "evalCovMatrixSymmetric", iv, -2, d, req1);
+        }
+        // ---- rectangular matrices: data x data, and data x targets
+        for (int jv = -1; jv < nvar; jv++)
+          for (int k2 = 0; k2 < NBGH; k2++)
+            for (int tgt = 0; tgt < 2; tgt++)
+            {
+              if (tgt && k2 == 2) continue;
+              std::vector<int> nb2 = tgt ? (k2 == 1 ? std::vector<int>({0, 2}) : std::vector<int>()) : nbghOf(k2);
+              VectorInt NB2(nb2.begin(), nb2.end());
+              std::vector<Eq> E2;
+              if (!tgt) E2 = eqs(r, varsOf(jv, nvar), nb2);
+              else for (int v : varsOf(jv, nvar)) { std::vector<int> o = nb2; if (o.empty()) o = {0, 1, 2}; for (int i : o) E2.push_back({v, i}); }
+              std::string req = req1 + " jvar0=" + std::to_string(jv) + " nbgh2=" + vstr(nb2) + (tgt ? " db2=3 targets" : " db2=db1");
+              auto refval = [&](size_t a, size_t b) { return model->eval(bv::sp(r, E1[a].ech), tgt ? bv::sp(rt, E2[b].ech) : bv::sp(r, E2[b].ech), E1[a].var, E2[b].var); };
+              for (int form = 0; form < 3; form++)
+              {
+                std::string d;
+                const char* opn = form == 0 ? "evalCovMatrix" : form == 1 ? "evalCovMatrixOptim" : "evalCovMatrixSparse";
+                if (form < 2)
+                {
+                  MatrixRectangular M = form == 0 ? model->evalCovMatrix(db.get(), tgt ? dt.get() : nullptr, iv, jv, NB1, NB2) : model->evalCovMatrixOptim(db.get(), tgt ? dt.get() : nullptr, iv, jv, NB1, NB2);
+                  if (form == 1) cleanOptim(model.get());
+                  if (E1.empty() || E2.empty()) { if (M.getNRows() != 0) d = "non empty matrix for an empty request"; }
+                  else if (M.getNRows() != (int)E1.size() || M.getNCols() != (int)E2.size()) d = "dims " + std::to_string(M.getNRows()) + "x" + std::to_string(M.getNCols()) + " expected " + std::to_string(E1.size()) + "x" + std::to_string(E2.size()) + " rows " + eqStr(E1) + " columns " + eqStr(E2);
+                  else
+                    for (size_t a = 0; a < E1.size() && d.empty(); a++)
+                      for (size_t b = 0; b < E2.size() && d.empty(); b++)
+                        if (!close(M.getValue((int)a, (int)b), refval(a, b), 1e-10, 1.)) d = "(" + std::to_string(a) + "," + std::to_string(b) + ") = " + fmt(M.getValue((int)a, (int)b)) + " expected " + fmt(refval(a, b)) + " rows " + eqStr(E1) + " columns " + eqStr(E2);
+                }
+                else
+                {
+                  if (k1 == 2 || k2 == 2) continue;   // sparse form judged on the sorted lists only
+                  if (E1.empty() || E2.empty()) continue;
+                  // a request for a variable of rank >= 1 writes outside its 1x1 (or nvar x 1) work matrix of sills on the unchanged
+                  // tree (heap corruption): those requests run in a forked child, one key for crash-or-wrong (not reproducible)
+                  bool risky = iv >= 1 || jv >= 1;
+                  auto sparseDiff = [&]() -> std::string {
+                    std::unique_ptr<MatrixSparse> M(model->evalCovMatrixSparse(db.get(), tgt ? dt.get() : nullptr, iv, jv, NB1, NB2));
+                    if (!M) return "null matrix";
+                    for (size_t a = 0; a < E1.size(); a++)
+                      for (size_t b = 0; b < E2.size(); b++)
+                      {
+                        double ref = refval(a, b);
+                        double c0 = model->eval(bv::sp(r, 0), bv::sp(r, 0), E1[a].var, E2[b].var);
+                        // documented thinning: terms below eps * C(0) are dropped (default eps = 1e-3); judge the clear cases only
+                        if (std::fabs(ref) < 2e-3 * std::fabs(c0)) continue;
+                        double got = ((int)a < M->getNRows() && (int)b < M->getNCols()) ? M->getValue((int)a, (int)b) : 0.;
+                        if (!close(got, ref, 1e-10, 1.)) return "(" + std::to_string(a) + "," + std::to_string(b) + ") = " + fmt(got) + " expected " + fmt(ref) + " rows " + eqStr(E1) + " columns " + eqStr(E2) + " sparse dims " + std::to_string(M->getNRows()) + "x" + std::to_string(M->getNCols());
+                      }
+                    return "";
+                  };
+                  if (!risky) d = sparseDiff();
+                  else { risky_reqs.push_back({iv, jv, k1, k2, tgt}); continue; }
+                }
+                judge(opn, iv, jv, d, req);
+              }
+            }
+      }
+    // ---- the sparse requests for a variable of rank >= 1, all in ONE forked child (they corrupt the heap on the unchanged tree)
+    if (!risky_reqs.empty())
+    {
+      auto describe = [&](const RiskyReq& q) {
+        std::vector<int> nb1 = nbghOf(q.k1), nb2 = q.tgt ? (q.k2 == 1 ? std::vector<int>({0, 2}) : std::vector<int>()) : nbghOf(q.k2);
+        return "ivar0=" + std::to_string(q.iv) + " nbgh1=" + vstr(nb1) + " jvar0=" + std::to_string(q.jv) + " nbgh2=" + vstr(nb2) + (q.tgt ? " db2=3 targets" : " db2=db1");
+      };
+      ChildResult cr = run_child([&](int wfd) {
+        limit_child_cpu(5);
+        for (size_t k = 0; k < risky_reqs.size(); k++)
+        {
+          const RiskyReq& q = risky_reqs[k];
+          std::vector<int> nb1 = nbghOf(q.k1), nb2 = q.tgt ? (q.k2 == 1 ? std::vector<int>({0, 2}) : std::vector<int>()) : nbghOf(q.k2);
+          VectorInt NB1(nb1.begin(), nb1.end()), NB2(nb2.begin(), nb2.end());
+          std::vector<Eq> E1 = eqs(r, varsOf(q.iv, nvar), nb1), E2;
+          if (!q.tgt) E2 = eqs(r, varsOf(q.jv, nvar), nb2);
+          else for (int v : varsOf(q.jv, nvar)) { std::vector<int> o = nb2; if (o.empty()) o = {0, 1, 2}; for (int i : o) E2.push_back({v, i}); }
+          std::string d;
+          std::unique_ptr<MatrixSparse> M(model->evalCovMatrixSparse(db.get(), q.tgt ? dt.get() : nullptr, q.iv, q.jv, NB1, NB2));
+          if (!M) d = "null matrix";
+          else
+            for (size_t a = 0; a < E1.size() && d.empty(); a++)
+              for (size_t b = 0; b < E2.size() && d.empty(); b++)
+              {
+                double ref = model->eval(bv::sp(r, E1[a].ech), q.tgt ? bv::sp(rt, E2[b].ech) : bv::sp(r, E2[b].ech), E1[a].var, E2[b].var);
+                double c0 = model->eval(bv::sp(r, 0), bv::sp(r, 0), E1[a].var, E2[b].var);
+                if (std::fabs(ref) < 2e-3 * std::fabs(c0)) continue;
+                double got = ((int)a < M->getNRows() && (int)b < M->getNCols()) ? M->getValue((int)a, (int)b) : 0.;
+                if (!close(got, ref, 1e-10, 1.)) d = "(" + std::to_string(a) + "," + std::to_string(b) + ") = " + fmt(got) + " expected " + fmt(ref) + " rows " + eqStr(E1) + " columns " + eqStr(E2);
+              }
+          child_write(wfd, std::to_string(k) + "|" + d + "\n");
+        }
+        return 0;
+      }, 120.);
+      std::vector<std::string> res;
+      { std::stringstream ss(cr.data); std::string line; while (std::getline(ss, line)) { size_t q = line.find('|'); if (q != std::string::npos) res.push_back(line.substr(q + 1)); } }
+      bool died = !cr.clean() || cr.code != 0;
+      for (size_t k = 0; k < risky_reqs.size(); k++)
+      {
+        if (k > res.size()) break;               // requests after the one that killed the child were not executed
+        std::string dd = k < res.size() ? res[k] : (died ? "the call ends with " + cr.describe() : "no answer");
+        C.eval();
+        C.outcome(std::string("evalCovMatrixSparse:rank>=1:") + (dd.empty() ? "identical" : k < res.size() ? "DIFFERENT" : "crash"));
+        if (differ) C.nontrivial(Hash().u(id).s("sparse").u(k).h);
+        if (!dd.empty()) C.violation("evalCovMatrixSparse:request-for-variable-rank>=1:crashes-or-differs", "evalCovMatrixSparse(" + describe(risky_reqs[k]) + "): " + dd + what, kase);
+      }
+    }
+    // ---- variograms and statistics of one variable: the bivariate heterotopic Db vs the monovariate Db of that variable
+    if (nvar == 2 && idx[3] == 0)
+    {
+      static const ECalcVario CALC[2] = {ECalcVario::VARIOGRAM, ECalcVario::COVARIANCE};
+      static const char* CALCN[2] = {"variogram", "covariance"};
+      for (int kc = 0; kc < 2; kc++)
+      {
+        std::unique_ptr<VarioParam> vp(VarioParam::createOmniDirection(4, 1.25, 0.5));
+        DbP dball(raw_to_db(r));
+        std::unique_ptr<Vario> vall(Vario::computeFromDb(*vp, dball.get(), CALC[kc]));
+        for (int pairk = 0; pairk < 3; pairk++)
+        {
+          int va = pairk == 2 ? 1 : pairk, vb = pairk == 2 ? 0 : pairk;   // (0,0) (1,1) (1,0)
+          // reduced table: only the requested variable(s), samples lacking one of them removed
+          std::vector<int> keep(n);
+          int nk = 0;
+          for (int i = 0; i < n; i++) { keep[i] = (r.sel.empty() || r.sel[i] > 0) && !FFFF(r.z[va][i]) && !FFFF(r.z[vb][i]); nk += keep[i]; }
+          if (nk < 2) { C.skip(); C.outcome("vario:excluded:fewer-than-2-samples-for-the-variable"); continue; }
+          Raw rr = reduce_raw(r, keep);
+          if (va == vb) { VD z = rr.z[va]; rr.z.clear(); rr.z.push_back(z); rr.nvar = 1; }
+          DbP dred(raw_to_db(rr));
+          std::unique_ptr<Vario> vred(Vario::computeFromDb(*vp, dred.get(), CALC[kc]));
+          std::string d;
+          if (!vall || !vred) { if ((bool)vall != (bool)vred) d = "one of the two calculations failed"; }
+          else
+          {
+            int ia = va == vb ? 0 : va, ib = va == vb ? 0 : vb;
+            for (int i = 0; i < vall->getDirSize(0) && d.empty(); i++)
+            {
+              int a1 = vall->getDirAddress(0, va, vb, i, true, 0), a2 = vred->getDirAddress(0, ia, ib, i, true, 0);
+              if (a1 < 0 || a2 < 0) continue;
+              double s1 = vall->getSwByIndex(0, a1), s2 = vred->getSwByIndex(0, a2), g1 = vall->getGgByIndex(0, a1), g2 = vred->getGgByIndex(0, a2);
+              bool u1 = undef(g1) || s1 == 0, u2 = undef(g2) || s2 == 0;
+              if (s1 != s2) d = "slot " + std::to_string(i) + ": pair weight " + fmt(s1) + " vs " + fmt(s2);
+              else if (u1 != u2 || (!u1 && !close(g1, g2, 1e-12, 1.))) d = "slot " + std::to_string(i) + ": value " + fmt(g1) + " vs " + fmt(g2);
+            }
+          }
+          // for the cross terms both runs keep partially defined samples out by construction; the covariance kinds centre with the
+          // mean of ALL samples of a variable (not only the common ones): judged for the direct terms, and for the variogram cross term
+          if (va != vb && kc == 1) { C.outcome("vario:cross-covariance:not-judged(centering uses each variable's own samples)"); continue; }
+          C.eval();
+          C.outcome(std::string("vario-") + CALCN[kc] + (va == vb ? ":direct:" : ":cross:") + (d.empty() ? "identical" : "DIFFERENT"));
+          if (differ) C.nontrivial(Hash().u(id).i(kc).i(pairk).i(777).h);
+          if (!d.empty()) C.violation(std::string("vario:") + CALCN[kc] + ":one-variable-of-heterotopic-data:" + (va == vb ? "direct" : "cross"), std::string("experimental ") + CALCN[kc] + " (" + std::to_string(va) + "," + std::to_string(vb) +
+                                      ") on the bivariate Db vs on the Db reduced to the variable(s): " + d + what, kase);
+        }
+      }
+      // statistics by name list
+      for (int v = 0; v < 2; v++)
+      {
+        std::vector<int> keep(n);
+        int nk = 0;
+        for (int i = 0; i < n; i++) { keep[i] = (r.sel.empty() || r.sel[i] > 0) && !FFFF(r.z[v][i]); nk += keep[i]; }
+        if (nk == 0) continue;
+        Raw rr = reduce_raw(r, keep);
+        VD z = rr.z[v]; rr.z.clear(); rr.z.push_back(z); rr.nvar = 1;
+        DbP dall(raw_to_db(r)), dred(raw_to_db(rr));
+        auto ops = EStatOption::fromKeys({"NUM", "MEAN", "VAR", "MINI", "MAXI", "SUM"});
+        for (int form = 0; form < 3; form++)
+        {
+          // {zv} alone (iso irrelevant) ; {zv, other} and {other, zv} with flagIso=false: the row of zv must not depend on the other variable
+          VectorString names; int row = 0;
+          std::string zn = "z" + std::to_string(v + 1), on = "z" + std::to_string(2 - v);
+          if (form == 0) names = {zn}; else if (form == 1) { names = {zn, on}; row = 0; } else { names = {on, zn}; row = 1; }
+          Table ta = dbStatisticsMono(dall.get(), names, ops, form == 0);
+          Table tb = dbStatisticsMono(dred.get(), VectorString({"z1"}), ops, true);
+          std::string d;
+          for (int j = 0; j < tb.getNCols() && d.empty(); j++)
+          {
+            double a = ta.getValue(row, j), b = tb.getValue(0, j);
+            if ((undef(a) != undef(b)) || (!undef(a) && !close(a, b, 1e-12, 1.))) d = "statistic " + std::to_string(j) + " of " + zn + ": " + fmt(a) + " vs " + fmt(b) + " on the Db reduced to that variable";
+          }
+          C.eval();
+          C.outcome(std::string("statsMono-by-name:") + (d.empty() ? "identical" : "DIFFERENT"));
+          if (differ) C.nontrivial(Hash().u(id).i(v).i(form).i(888).h);
+          if (!d.empty()) C.violation("statsMono:one-variable-of-heterotopic-data", "dbStatisticsMono(names=" + std::string(form == 0 ? "{zv}" : form == 1 ? "{zv,other}" : "{other,zv}") + ", iso=" + std::to_string(form == 0) + "): " + d + what, kase);
+        }
+      }
+    }
   });
 }
 
